@@ -90,6 +90,9 @@ MUTANTS = [
      ["_SOLVER_BROKEN = []\n\n\n@dataclass\nclass BpSeq:\n",
       "        # if PuLP solvers are not installed (or failed before), use FCFS\n        if solver is None or _SOLVER_BROKEN:\n            return self.fcfs\n",
       "        except pulp.PulpSolverError:\n            _SOLVER_BROKEN.append(True)\n"]),
+    ("m_c02_failure_clears_default", "C02", C,
+     "        except pulp.PulpSolverError:\n            logging.warning(",
+     "        except pulp.PulpSolverError:\n            pulp.LpSolverDefault = None  # 'do not try a broken solver again'\n            logging.warning("),
     ("m_c02_twodigit", "C02", C, '                i, order = map(int, name.split("_")[1:])',
      "                i, order = int(name[2]), int(name[-1])"),
     ("m_c02_size_shortcut", "C02", C,
